@@ -300,7 +300,8 @@ def run_check(prop: str, tier: str) -> int:
                 # shrinking drifted into a known finding: keep the original
                 small, small_res, runs = doc, iso.execute(doc), 0
                 sv = small_res["violation"] or v
-            tag = f"{clause}-{k.replace(':', '_')}".replace("/", "_")[:80]
+            tag = "".join(ch if (ch.isalnum() or ch in "-_.") else "_"
+                          for ch in f"{clause}-{k}")[:80]
             path = core.write_replay(prop, seed, tier, tag, _jsonable(small),
                                      _jsonable(small_res), doc, runs)
             rc, out = core.replay_in_fresh_interpreter(
